@@ -84,6 +84,8 @@ def rv_str(rv):
         return f"{ak}({ops})"
     if k == "repeat":
         return f"[{op_str(rv['op'])}; n]"
+    if k == "through":
+        return f"{op_str(rv['op'])} /* still {rv['variant']} */"
     return rv.get("dbg", k)
 
 
@@ -383,6 +385,9 @@ class Facts:
         from . import inline
         self.folded = sum(inline.fold_const_switches(b) for b in self.j["bodies"])
         self.inlined = inline.inline_helpers(self.j["bodies"], inline.load_known()) if use_inliner else {}
+        from . import normalize
+        import os as _os
+        self.combinators = normalize.normalise_combinators(self.j["bodies"], self.j.get("adts"), cli=(self.j.get("crate") == "jp")) if use_inliner and not _os.environ.get("VERIF_NO_NORMALISE") else 0
         self.normalised = normalise
         self.path = path
         self.crate = self.j["crate"]
@@ -419,7 +424,8 @@ class Facts:
                 and (with_inlined_helpers or not self.is_inlined_helper(b))]
 
     def is_inlined_helper(self, b):
-        if b.j.get("inlined_into"):
+        """Helpers inlined into their callers, and closures spliced into their parents at every use."""
+        if b.j.get("inlined_into") or b.j.get("fully_spliced"):
             return True
         return False
 
